@@ -660,14 +660,16 @@ Decision(S, s, mt) ==
 MsgType(i) ==
   CASE i.op = "subscribe" -> "SUBSCRIBE" [] i.op = "unsubscribe" -> "UNSUBSCRIBE" [] i.op = "publish" -> "PUBLISH"
     [] i.op = "register" -> "REGISTER" [] i.op = "unregister" -> "UNREGISTER" [] i.op \in {"call", "metacall"} -> "CALL"
-    [] i.op = "cancel" -> "CANCEL" [] i.op = "yield" -> "YIELD" [] OTHER -> ""
+    [] i.op = "cancel" -> "CANCEL" [] i.op = "yield" -> "YIELD" [] i.op = "inverror" -> "ERROR" [] OTHER -> ""
 TypeCode(mt) ==
   CASE mt = "SUBSCRIBE" -> T_SUBSCRIBE [] mt = "UNSUBSCRIBE" -> T_UNSUBSCRIBE [] mt = "PUBLISH" -> T_PUBLISH
     [] mt = "REGISTER" -> T_REGISTER [] mt = "UNREGISTER" -> T_UNREGISTER [] mt = "CALL" -> T_CALL
-    [] mt = "CANCEL" -> T_CANCEL [] OTHER -> T_YIELD
+    [] mt = "CANCEL" -> T_CANCEL [] mt = "ERROR" -> 8 [] OTHER -> T_YIELD
 
 \* a refused request changes nothing and is answered by exactly one ERROR of the
-\* request's type and id (an unacknowledged PUBLISH by nothing)
+\* request's type and id (an unacknowledged PUBLISH by nothing; a refused ERROR of a
+\* callee is not a request: that it is not acted upon is all the property says)
+SilentRefusal(i) == (i.op = "publish" /\ ~i.o.ack) \/ i.op = "inverror"
 RefuseFx(S, s, type, req, dec, silent) ==
   IF silent THEN S
   ELSE Emit(S, s, ErrorMsg(type, req, IF dec = "fail" THEN ErrAuthzFailed ELSE ErrNotAuthorized, S))
